@@ -88,8 +88,7 @@ def show(a, ty):
             l, r = (atom(x[1]) if x[1][0] == "A" else go(x[1])), (atom(x[2]) if x[2][0] == "A" else go(x[2]))
             return None if l is None or r is None else l + r
         if t == "A":
-            if basic:
-                return None
+            # (posix-basic, ed and sed have \| too: GNU's definition of these syntaxes, enabled since c3caeae)
             l, r = go(x[1]), go(x[2])
             return None if l is None or r is None else l + bar + r
         if t == "S":
@@ -233,6 +232,16 @@ def known(ctx, forest):
              ("emacs", b"nl/\\(a\\|a\n\\)", [b"nl/a", b"nl/a\n"]), ("grep", b"nl/\\(a\\|a\n\\)", [b"nl/a", b"nl/a\n"]),
              ("emacs", b"nl/\\(\n\\|a\\|a\nb\\|a\n\\)", [b"nl/\n", b"nl/a", b"nl/a\n", b"nl/a\nb"]),
              ("posix-basic", b"nl/a\n\\{0,1\\}", [b"nl/a", b"nl/a\n"]), ("posix-extended", b"nl/a\n?", [b"nl/a", b"nl/a\n"])]
+    # a ")" without a "(" before it is an ordinary character in posix-extended (also inside the group the pattern is wrapped in);
+    # nested repetition used to end in a panic when the engine's default limit on backtracking steps was reached
+    for n in (b"a)", b"b)", b"a)b", b"a))", b"aaaaaaaaaaaaaaaaaaaaaaaa"):
+        open(os.path.join(d, n), "wb").close()
+    cases += [("posix-extended", b"nl/a)", [b"nl/a)"]), ("posix-extended", b"nl/a)|nl/b[)]", [b"nl/a)", b"nl/b)"]),
+              ("posix-extended", b"nl/a)b", [b"nl/a)b"]), ("posix-extended", b"nl/a)*", [b"nl/a", b"nl/a)", b"nl/a))"]),
+              ("posix-extended", b"nl/(a|b))", [b"nl/a)", b"nl/b)"]),
+              ("posix-extended", b"nl/((a+)+b|a+)", [b"nl/a", b"nl/aaaaaaaaaaaaaaaaaaaaaaaa"]),
+              ("emacs", b"nl/\\(\\(a+\\)+b\\|a+\\)", [b"nl/a", b"nl/aaaaaaaaaaaaaaaaaaaaaaaa"]),
+              ("posix-basic", b"nl/a\\|nl/a)", [b"nl/a", b"nl/a)"]), ("sed", b"nl/\\(a)\\|a\\)b*", [b"nl/a", b"nl/a)", b"nl/a)b"])]
     for ty, pat, want in cases:
         for flag in (b"-regex", b"-iregex"):
             line = "find - %s %s" % (fw.hexs(forest.dir), xc.hexlist([b"nl", b"-regextype", ty.encode(), flag, pat, b"-print0"]))
